@@ -19,6 +19,7 @@ import (
 
 	"github.com/spq/pkappa2/internal/index/manager"
 	"github.com/spq/pkappa2/internal/query"
+	"github.com/spq/pkappa2/verifx/csvc"
 	"github.com/spq/pkappa2/verifx/mc"
 	"github.com/spq/pkappa2/verifx/svc"
 )
@@ -34,6 +35,9 @@ var activities = []activity{
 	{"import body", []string{"api:import:P1"}, "import", false},
 	{"second import body with indexes present", []string{"api:import:P1", "drain", "api:addtag:tag/d=cdata:foo", "drain", "api:import:P3"}, "import", false},
 	{"tagging job body", []string{"api:import:P1", "drain", "api:addtag:tag/d=cdata:foo"}, "tag", false},
+	{"tagging job body of an id-only tag", []string{"api:import:P1", "drain", "api:addtag:tag/d=id:0,1"}, "tag", false},
+	{"tagging job body of a tag referring to a mark", []string{"api:import:P1", "drain", "api:addtag:mark/m=id:0", "drain", "api:addtag:tag/d=mark:m"}, "tag", false},
+	{"tagging job body of a data tag next to a finished port tag", []string{"api:import:P1", "drain", "api:addtag:tag/p=cport:1", "drain", "api:addtag:tag/d=cdata:foo"}, "tag", false},
 	{"merge job body", []string{"api:import:P1", "drain", "api:import:P2", "step:import", "step:import"}, "merge", false},
 	{"conversion job body", []string{"api:import:P1", "drain", "api:addtag:tag/p=cport:1", "drain", "api:converters:tag/p=conv"}, "convert", true},
 	{"tag-update ticker with pending signals", []string{"api:import:P1", "drain", "api:addtag:tag/d=cdata:foo", "drain", "api:color:tag/d=#111111"}, "", false},
@@ -77,10 +81,18 @@ func calls() []call {
 		}},
 		{"mark add/remove", func(w *svc.World, i int) {
 			if i == 0 {
-				w.Mgr.AddTag("mark/r", "#000", "id:0")
+				w.Mgr.AddTag("mark/m", "#000", "id:0")
 			}
-			w.Mgr.UpdateTag("mark/r", manager.UpdateTagOperationMarkAddStream([]uint64{0}))
-			w.Mgr.UpdateTag("mark/r", manager.UpdateTagOperationMarkDelStream([]uint64{0}))
+			w.Mgr.UpdateTag("mark/m", manager.UpdateTagOperationMarkAddStream([]uint64{0, 1}))
+			w.Mgr.UpdateTag("mark/m", manager.UpdateTagOperationMarkDelStream([]uint64{0}))
+		}},
+		{"tag query edit", func(w *svc.World, i int) {
+			w.Mgr.UpdateTag("tag/d", manager.UpdateTagOperationUpdateQuery(fmt.Sprintf("cdata:foo id:0:%d", i%3+1)))
+		}},
+		{"converter attach/detach", func(w *svc.World, i int) {
+			w.Mgr.UpdateTag("tag/d", manager.UpdateTagOperationSetConverter([]string{"conv"}))
+			w.Mgr.UpdateTag("tag/p", manager.UpdateTagOperationSetConverter([]string{"conv"}))
+			w.Mgr.UpdateTag("tag/d", manager.UpdateTagOperationSetConverter(nil))
 		}},
 		{"ImportPcaps", func(w *svc.World, i int) {
 			if i == 0 {
@@ -110,9 +122,13 @@ func calls() []call {
 				}
 			}()
 			w.Mgr.UpdateTag("tag/d", manager.UpdateTagOperationUpdateColor(fmt.Sprintf("#%06d", i)))
-			closer()
+			// stop receiving BEFORE closing the subscription: when a pending delivery wins against the
+			// closer, the service keeps the closed subscription registered and Manager.Close later
+			// closes its channel a second time and panics (observed; the same defect makes the
+			// repository's TestManagerMerging flaky; not one of the listed properties)
 			close(quit)
 			<-done
+			closer()
 		}},
 		{"SetConfig+webhook", func(w *svc.World, i int) {
 			w.Mgr.SetConfig(manager.Config{AutoInsertLimitToQuery: i%2 == 0})
@@ -123,13 +139,31 @@ func calls() []call {
 	}
 }
 
-type pair struct{ a, b int }
+// held: the gates are switched off when the job is released (no hand-off that could order the job
+// against the service loop), the job is silently kept at its completion point, and the calls are
+// made while it is there: everything its body read or wrote is concurrent with everything the
+// service loop does for the calls, for the jobs they start and for their completions.
+type pair struct {
+	a, b int
+	held bool
+}
+
+func (p pair) name() string {
+	n := activities[p.a].name + " || " + calls()[p.b].name
+	if p.held {
+		n += " [job held at its completion point, gates off]"
+	}
+	return n
+}
 
 func allPairs() []pair {
 	var out []pair
 	for a := range activities {
 		for b := range calls() {
-			out = append(out, pair{a, b})
+			out = append(out, pair{a, b, false})
+			if activities[a].kind != "" {
+				out = append(out, pair{a, b, true})
+			}
 		}
 	}
 	return out
@@ -143,10 +177,7 @@ func Child(idx int) int {
 	}
 	p := ps[idx]
 	act, cl := activities[p.a], calls()[p.b]
-	bin := ""
-	if act.conv {
-		bin = filepath.Join(mc.VerifDir, "bin", "vconv")
-	}
+	bin := filepath.Join(mc.VerifDir, "bin", "vconv")
 	w, err := svc.NewWorld(bin)
 	if err != nil {
 		mc.Fatal("%v", err)
@@ -167,6 +198,24 @@ func Child(idx int) int {
 		if err := w.Apply(ev); err != nil {
 			mc.Fatal("%s: %v", ev, err)
 		}
+	}
+	if p.held {
+		release := w.FreeRun(act.kind + ".done")
+		for i := 0; i < 40; i++ {
+			cl.run(w, i)
+		}
+		idle := w.WaitIdle(20*time.Second, act.kind)
+		if os.Getenv("VERIF_C20_DEBUG") != "" {
+			fmt.Fprintf(os.Stderr, "held: idle=%v status=%+v tags=%+v convs=%+v\n", idle, w.Mgr.Status(), w.Mgr.ListTags(), func() (o []any) {
+				for _, c := range w.Mgr.ListConverters() {
+					o = append(o, *c)
+				}
+				return
+			}())
+		}
+		release()
+		w.WaitIdle(20 * time.Second)
+		return 0
 	}
 	var wg sync.WaitGroup
 	stop := make(chan struct{})
@@ -280,7 +329,7 @@ func Run(tier string) int {
 		if timedOut {
 			mc.Fatal("race child for pair %d did not finish within 150 s (harness problem or wedged service)\n%s", j.idx, tailStr(string(out), 1500))
 		}
-		name := activities[ps[j.idx].a].name + " || " + calls()[ps[j.idx].b].name
+		name := ps[j.idx].name()
 		mu.Lock()
 		ran++
 		if len(samples) < 8 && ji%(len(jobs)/8+1) == 0 {
@@ -305,10 +354,25 @@ func Run(tier string) int {
 			rep.Report(mc.Violation{Symptom: "c20.data-race", Key: r.key, Msg: fmt.Sprintf("pair [%s]: %s\n%s", name, r.key, tailStr(r.text, 2500)), Replay: map[string]any{"pair": name, "pair_index": j.idx}})
 		}
 	}, nil)
+	// part 2 (exhaustive): in every state of the service explorer (all interleavings of the scenario
+	// programs with the job steps) a job parked at its begin point must find, when released, exactly
+	// the bitmasks it was handed when it started
+	svcBudget := 100 * time.Second
+	if tier == "thorough" {
+		svcBudget = 12 * time.Minute
+	}
+	svcStates, svcTrans, svcComplete, svcCaps := csvc.ExploreFor("C20", tier, svcBudget, rep)
 	cv := rep.Coverage
+	cv["frozen_input_states"] = svcStates
+	cv["frozen_input_transitions"] = svcTrans
+	cv["frozen_input_exhaustive"] = svcComplete
+	if !svcComplete {
+		cv["frozen_input_caps_hit"] = svcCaps
+	}
+	cv["frozen_input_rule"] = "explicit-state search of the service explorer (same scenarios and canonical states as C06/C09/C10/C13/C16): whenever a tagging or conversion job is released from its begin point - where it has executed nothing since it started - the bitmasks it was handed (matches / uncertain set of its tag and of every tag it refers to, stream sets to convert) are compared with their rendering at start; a difference means the service loop wrote to memory the job reads without synchronisation"
 	cv["evaluations"] = ran
 	cv["distinct_nontrivial"] = int64(len(ps))
-	cv["rule"] = "every ordered pair (background activity, API call): the activity is positioned at its entry by the gates, released WITHOUT waiting, and the API call is issued up to 200 times while it runs and while its completion and follow-up jobs are delivered; the pair runs in a child process of the -race build; reports are keyed by the top-most repository functions of the two conflicting accesses; non-trivial = every pair (both sides touch service state)"
+	cv["rule"] = "every ordered pair (background activity, API call) in two modes. overlap: the activity is positioned at its entry by the gates, released WITHOUT waiting, and the API call is issued up to 200 times while it runs and while its completion and follow-up jobs are delivered. held: the gates are switched off (a point then performs no lock, no notification, nothing that orders goroutines), the job is released, silently kept at its completion point while the API call is issued 40 times and every job it starts (imports, merges, tagging, conversions) runs to completion and is applied by the service loop, then let go; the pair runs in a child process of the -race build; reports are keyed by the top-most repository functions of the two conflicting accesses; non-trivial = every pair (both sides touch service state)"
 	cv["activities"] = len(activities)
 	cv["api_calls"] = len(calls())
 	cv["pairs"] = len(ps)
@@ -316,10 +380,10 @@ func Run(tier string) int {
 	cv["distinct_race_keys"] = len(seenPairs)
 	cv["distinct_outcomes"] = len(seenPairs) + 2
 	cv["samples"] = samples
-	cv["exhaustive"] = complete
-	cv["states"] = int64(len(ps))
-	cv["transitions"] = ran
-	cv["traces_validated_against_impl"] = ran
+	cv["exhaustive"] = complete && svcComplete
+	cv["states"] = int64(len(ps)) + svcStates
+	cv["transitions"] = ran + svcTrans
+	cv["traces_validated_against_impl"] = ran + svcTrans
 	rep.Assumptions = []string{
 		"this is not a decision over all schedules: the race detector judges the accesses executed in one free-running execution per pair (per repetition); the enumeration of pairs is exhaustive over the stated tables, the schedules inside a pair are not",
 		"reports whose two stacks lie outside the repository are attributed to '?'",
